@@ -129,7 +129,8 @@ class ApplyInstruction(MichelsonInstruction, prim='APPLY'):
                 lambda_.value,
             ]
         )
-        res = LambdaType.create_type(args=[right_type, lambda_.args[1]])(new_value)  # type: ignore
+        # NOTE: the component type may carry a field annotation, which `lambda` does not accept on its argument type
+        res = LambdaType.create_type(args=[right_type.get_anon_type(), lambda_.args[1]])(new_value)  # type: ignore
         stack.push(res)
         stdout.append(format_stdout(cls.prim, [left, lambda_], [res]))  # type: ignore
         return cls(stack_items_added=1)
